@@ -322,56 +322,76 @@ def run(tier, seed, replay_file=None):
         hists = list(r.cases)
         o.exhaustive = True
         if tier == "thorough":
-            r = tlc.run("mc/MC_GenCache.tla", "mc/MC_GenCache_sim.cfg", workers=1, simulate="num=30000", depth=40, seed=seed + 7, tag="c09sim")
+            # (a simulated behaviour prints every candidate last call, ~30 histories per behaviour; a seeded sample of them is replayed)
+            r = tlc.run("mc/MC_GenCache.tla", "mc/MC_GenCache_sim.cfg", workers=1, simulate="num=2500", depth=40, seed=seed + 7, tag="c09sim")
             if r.rc != 0:
                 raise tlc.TlcError("simulate failed: " + r.out[-1500:])
-            uniq = {json.dumps(c, sort_keys=True): c for c in r.cases}
-            hists += list(uniq.values())
+            srnd = random.Random(seed + 11)
+            hists += r.cases if len(r.cases) <= 40000 else srnd.sample(r.cases, 40000)
             o.transitions += r.generated
+            o.mc_runs.append({"spec": "MC_GenCache(simulate)", "constants": "mc/MC_GenCache_sim.cfg", "behaviours": len(r.cases)})
+            del r
         rnd = random.Random(seed)
         nrich = 4000 if tier == "quick" else 40000
         for _ in range(nrich):
             hists.append([rich_step(rnd) for _ in range(rnd.randint(2, 7))])
         rnd.shuffle(hists)
-    traces = pool_map(replay, list(enumerate(hists)), chunksize=128)
-    # batches: the cross-trace name registry needs traces of different workers/orders in ONE TLC process per batch;
-    # use few large batches so that every <<g,key>> meets its other occurrences
-    files = tlc.split_batches(traces, WORK / "c09", f"tr-{tier}", 8)
+    # RUN in 8 chunks = the 8 validation batches (the cross-trace name registry needs traces of different workers/orders in ONE TLC process per
+    # batch, so that every <<g,key>> meets its other occurrences); the projected traces are written out and dropped chunk by chunk
+    work = WORK / "c09"
+    work.mkdir(parents=True, exist_ok=True)
+    files = []
+    nb = min(8, max(1, len(hists)))
+    per = (len(hists) + nb - 1) // nb
+    ntr = 0
+    nt = 0
+    rnd = random.Random(seed)
+    sample_ids = set(rnd.sample(range(len(hists)), min(3, len(hists))))
+    kept = {}
+    for b in range(nb):
+        chunk = list(enumerate(hists))[b * per:(b + 1) * per]
+        if not chunk:
+            continue
+        traces = pool_map(replay, chunk, chunksize=128)
+        files += tlc.split_batches(traces, work, f"tr-{tier}-{b}", 1)
+        ntr += len(traces)
+        o.evaluations += sum(len(t) for t in traces)
+        for t in traces:
+            hit = any(ev["op"] == "call" and not ev["bodies"] for ev in t)
+            nest = any(ev["nested"] for ev in t)
+            nt += 1 if (hit or nest) else 0
+            if t[0]["tid"] in sample_ids:
+                kept[t[0]["tid"]] = t
+            for ev in t:
+                if ev["op"] == "call":
+                    k = "hit" if not ev["bodies"] else "miss"
+                    o.cover[k] = o.cover.get(k, 0) + 1
+                    o.cover["kind_" + ev["kind"]] = o.cover.get("kind_" + ev["kind"], 0) + 1
+                    o.cover["form_" + ev["form"]] = o.cover.get("form_" + ev["form"], 0) + 1
+                    if ev["nested"]:
+                        o.cover["nested_call"] = o.cover.get("nested_call", 0) + 1
+                    if len(ev["name"]) > 0 and "=" not in ev["name"] and "(" in ev["name"]:
+                        o.cover["hashed_name"] = o.cover.get("hashed_name", 0) + 1
+                    elif "=" in ev["name"]:
+                        o.cover["readable_name"] = o.cover.get("readable_name", 0) + 1
+        del traces
     res = tlc.validate_batches("trace/Trace_GenCache.tla", "trace/Trace_GenCache.cfg", files, jobs=8, tag="c09val")
     verdicts = {}
     for r in res:
         o.transitions += r.generated
         for tid, ok, clause in r.verdicts:
             verdicts[tid] = (ok, clause)
-    if len(verdicts) != len(traces):
-        raise tlc.TlcError(f"C09: {len(traces)} traces, {len(verdicts)} verdicts")
-    o.traces = len(traces)
-    o.evaluations = sum(len(t) for t in traces)
-    nt = 0
-    for t in traces:
-        hit = any(ev["op"] == "call" and not ev["bodies"] for ev in t)
-        nest = any(ev["nested"] for ev in t)
-        nt += 1 if (hit or nest) else 0
-        for ev in t:
-            if ev["op"] == "call":
-                k = "hit" if not ev["bodies"] else "miss"
-                o.cover[k] = o.cover.get(k, 0) + 1
-                o.cover["kind_" + ev["kind"]] = o.cover.get("kind_" + ev["kind"], 0) + 1
-                o.cover["form_" + ev["form"]] = o.cover.get("form_" + ev["form"], 0) + 1
-                if ev["nested"]:
-                    o.cover["nested_call"] = o.cover.get("nested_call", 0) + 1
-                if len(ev["name"]) > 0 and "=" not in ev["name"] and "(" in ev["name"]:
-                    o.cover["hashed_name"] = o.cover.get("hashed_name", 0) + 1
-                elif "=" in ev["name"]:
-                    o.cover["readable_name"] = o.cover.get("readable_name", 0) + 1
+    if len(verdicts) != ntr:
+        raise tlc.TlcError(f"C09: {ntr} traces, {len(verdicts)} verdicts")
+    o.traces = ntr
     o.distinct_nontrivial = nt
     o.required_cover = ["hit", "miss", "kind_fresh", "kind_nest", "kind_pass", "kind_rec", "form_kw", "form_inst", "nested_call", "hashed_name", "readable_name"]
-    rnd = random.Random(seed)
-    for i in rnd.sample(range(len(traces)), min(3, len(traces))):
-        o.samples.append({"history": hists[i], "events": [{k: ev[k] for k in ("g", "key", "mod", "name", "bodies", "nested", "raised")} for ev in traces[i] if ev["op"] == "call"],
-                          "verdict": verdicts[traces[i][0]["tid"]]})
-    for i, t in enumerate(traces):
-        ok, clause = verdicts[t[0]["tid"]]
+    for i, t in sorted(kept.items()):
+        o.samples.append({"history": hists[i], "events": [{k: ev[k] for k in ("g", "key", "mod", "name", "bodies", "nested", "raised")} for ev in t if ev["op"] == "call"],
+                          "verdict": verdicts[i]})
+    for i in sorted(verdicts):
+        ok, clause = verdicts[i]
         if not ok:
-            o.violations.append(Violation(clause=clause, case=hists[i], features=feats(hists[i], clause), detail=t if len(o.violations) < 30 else None))
+            detail = replay((i, hists[i])) if len(o.violations) < 30 else None      # (re-run for the report; what TLC judged is the first run)
+            o.violations.append(Violation(clause=clause, case=hists[i], features=feats(hists[i], clause), detail=detail))
     return o
